@@ -117,8 +117,9 @@ static const Geo GEOS[] = {
 };
 static const int NGEO = sizeof(GEOS) / sizeof(GEOS[0]);
 // positions as arc lengths (degrees): short, negative, more than half way round, more than two circuits
-static const double ARCS[4] = {35, -50, 200, 725.5};
-static const int NPOS_Q = 2, NPOS_T = 4;
+static const int NPOS_MAX = 10;
+static const double ARCS[NPOS_MAX] = {35, -50, 200, 725.5, -190, 90, 180, -1000.25, 1e-9, 0};
+static const int NPOS_Q = 2, NPOS_T = NPOS_MAX, NPOS_PATH = 4;     // positions: quick, thorough (Line path, GenDirect, overloads), other constructor paths
 
 template <class L> static Out genpos(const L& l, bool arcmode, double x, unsigned outmask) {
   Out o; o.ret = l.GenPosition(arcmode, x, outmask, o.v[0], o.v[1], o.v[2], o.v[3], o.v[4], o.v[5], o.v[6], o.v[7]); return o;
@@ -129,17 +130,20 @@ template <class G> static Out gendirect(const G& g, const Geo& q, bool arcmode, 
 
 // references of one (solver, geodesic): results under mask = ALL (and ALL | LONG_UNROLL), caps = ALL, for every position,
 // arc-specified and distance-specified (the distance being the s12 of the arc-specified reference)
-struct Refs { Out r[2][4][2]; double s[4]; Scale sc[2][4][2]; };    // [arcmode][pos][unroll]
-template <class S> static Refs make_refs(const typename S::G& g, const Geo& q) {
+struct Refs { Out r[2][NPOS_MAX][2]; double s[NPOS_MAX]; Scale sc[2][NPOS_MAX][2]; };    // [arcmode][pos][unroll]
+template <class S, class MK> static Refs make_refs_from(MK makeline, const Geo& q) {
   typedef typename S::G G; typedef typename S::L L;
-  Refs R; L l = g.Line(q.lat1, q.lon1, q.azi1, G::ALL);
-  for (int p = 0; p < 4; ++p) {
+  Refs R; L l = makeline((unsigned)G::ALL);
+  for (int p = 0; p < NPOS_MAX; ++p) {
     for (int u = 0; u < 2; ++u) R.r[1][p][u] = genpos(l, true, ARCS[p], G::ALL | (u ? G::LONG_UNROLL : 0));
     R.s[p] = R.r[1][p][0].v[3];
     for (int u = 0; u < 2; ++u) R.r[0][p][u] = genpos(l, false, R.s[p], G::ALL | (u ? G::LONG_UNROLL : 0));
     for (int am = 0; am < 2; ++am) for (int u = 0; u < 2; ++u) R.sc[am][p][u] = scales(q.a, q.f, R.r[am][p][u]);
   }
   return R;
+}
+template <class S> static Refs make_refs(const typename S::G& g, const Geo& q) {
+  return make_refs_from<S>([&](unsigned caps) { return g.Line(q.lat1, q.lon1, q.azi1, caps); }, q);
 }
 
 // compare a result with the reference according to a "written" predicate; returns number of failures recorded
@@ -478,28 +482,55 @@ template <class S> static void run_solver(Ctx& ctx, bool T) {
   typedef typename S::G G; typedef typename S::L L; typedef Enums<S> E;
   const std::string sn = S::name();
   const int npos = T ? NPOS_T : NPOS_Q;
-  // ---------------------------------------------------------------- GenPosition: masks x caps x arcmode x positions
-  ctx.sub("genposition/" + sn);
-  for (int gi = 0; gi < NGEO; ++gi) for (unsigned cs = 0; cs < 256; ++cs) {
-    const Geo& q = GEOS[gi];
-    if (!T && !q.quick) continue;
-    if (!ctx.take()) continue;
-    G g = S::make(q.a, q.f);
-    Refs R = make_refs<S>(g, q);
-    unsigned caps = E::caps(cs);
-    L line = g.Line(q.lat1, q.lon1, q.azi1, caps);
-    for (int am = 0; am < 2; ++am) for (int p = 0; p < npos; ++p) for (unsigned om = 0; om < 256; ++om) {
-      Ctx::Case cse(ctx);
-      unsigned outmask = E::outmask(om);
-      double x = am ? ARCS[p] : R.s[p];
-      Out o = genpos(line, am, x, outmask);
-      bool u = ms::unrolled(outmask), rn = ms::line_returns_nan(true, caps, am);
-      unsigned wbits = 0; for (int i = 0; i < NS; ++i) if (!o.untouched(i)) wbits |= 1u << i;
-      ctx.sig((uint64_t)wbits | (std::isnan(o.ret) ? 256 : 0) | (am ? 512 : 0));
-      std::string key = sn + " " + q.name + " caps=" + maskname(cs, true) + " outmask=" + maskname(om, false) + (am ? " arc=" : " dist=") + fx(x);
-      mc::Fields F{{"solver", sn}, {"geodesic", q.name}, {"caps", maskname(cs, true)}, {"outmask", maskname(om, false)}, {"arcmode", fmti(am)}};
-      judge(ctx, key, F, "genposition", SLOTN, o, R.r[am][p][u], R.sc[am][p][u], [&](int i) { return ms::line_writes(SLOTQ[i], outmask, true, caps, am); }, rn, true);
-      if (ctx.want_sample()) ctx.sample(key + " -> " + outs(o));
+  // ---------------------------------------------------------------- GenPosition: masks x caps x arcmode x positions,
+  // on lines obtained through every constructor path.  The value reference of a path is the line obtained through the
+  // SAME path with caps = ALL (InverseLine hands sin/cos of azi1 to the line, which need not equal sincosd(azi1) bitwise).
+  //   path 0 Line; 1 DirectLine(s13 = distance of 35 deg); 2 ArcDirectLine(35 deg); 3 GenDirectLine(false, ..);
+  //   4 GenDirectLine(true, ..); 5 InverseLine to the point at 35 deg
+  static const char* const PATHN[6] = {"Line", "DirectLine", "ArcDirectLine", "GenDirectLine(false)", "GenDirectLine(true)", "InverseLine"};
+  for (int path = 0; path < (T ? 6 : 1); ++path) {
+    ctx.sub(path == 0 ? "genposition/" + sn : std::string("genposition-") + PATHN[path] + "/" + sn);
+    const int np = path == 0 ? npos : NPOS_PATH;
+    for (int gi = 0; gi < NGEO; ++gi) for (unsigned cs = 0; cs < 256; ++cs) {
+      const Geo& q = GEOS[gi];
+      if (!T && !q.quick) continue;
+      if (!ctx.take()) continue;
+      G g = S::make(q.a, q.f);
+      Refs R0 = path == 0 ? Refs() : make_refs<S>(g, q);
+      const double s13 = path == 0 ? 0 : R0.s[0], lat3 = path == 0 ? 0 : R0.r[1][0][0].v[0], lon3 = path == 0 ? 0 : R0.r[1][0][0].v[1];
+      auto mk = [&](unsigned c) -> L {
+        switch (path) {
+        case 0: return g.Line(q.lat1, q.lon1, q.azi1, c);
+        case 1: return g.DirectLine(q.lat1, q.lon1, q.azi1, s13, c);
+        case 2: return g.ArcDirectLine(q.lat1, q.lon1, q.azi1, ARCS[0], c);
+        case 3: return g.GenDirectLine(q.lat1, q.lon1, q.azi1, false, s13, c);
+        case 4: return g.GenDirectLine(q.lat1, q.lon1, q.azi1, true, ARCS[0], c);
+        default: return g.InverseLine(q.lat1, q.lon1, lat3, lon3, c);
+        }
+      };
+      Refs R = make_refs_from<S>(mk, q);
+      unsigned caps = E::caps(cs);
+      // capabilities the line has according to the documentation of the path
+      unsigned ecaps = (path == 1 || path == 3) ? ms::directline_caps(caps) : caps;
+      // InverseLine with DISTANCE_IN but without DISTANCE: whether s12 can be returned is not documented (the library adds
+      // the capability so that the arc can be converted to the distance) -- s12 is not judged there
+      bool s12silent = path == 5 && (caps & ms::BIT_DISTANCE_IN) && !(caps & ms::OUTBIT[ms::Q_DIST]);
+      L line = mk(caps);
+      for (int am = 0; am < 2; ++am) for (int p = 0; p < np; ++p) for (unsigned om = 0; om < 256; ++om) {
+        Ctx::Case cse(ctx);
+        unsigned outmask = E::outmask(om);
+        double x = am ? ARCS[p] : R.s[p];
+        Out o = genpos(line, am, x, outmask);
+        bool u = ms::unrolled(outmask), rn = ms::line_returns_nan(true, ecaps, am);
+        unsigned wbits = 0; for (int i = 0; i < NS; ++i) if (!o.untouched(i)) wbits |= 1u << i;
+        ctx.sig((uint64_t)wbits | (std::isnan(o.ret) ? 256 : 0) | (am ? 512 : 0));
+        if (s12silent && (outmask & ms::OUTBIT[ms::Q_DIST])) { ctx.count("inverseline_s12_with_DISTANCE_IN_only_not_judged"); o.v[3] = SENT[3]; }
+        std::string key = sn + " " + q.name + (path ? std::string(" via ") + PATHN[path] : std::string()) + " caps=" + maskname(cs, true) + " outmask=" + maskname(om, false) + (am ? " arc=" : " dist=") + fx(x);
+        mc::Fields F{{"solver", sn}, {"geodesic", q.name}, {"path", PATHN[path]}, {"caps", maskname(cs, true)}, {"outmask", maskname(om, false)}, {"arcmode", fmti(am)}};
+        judge(ctx, key, F, path == 0 ? "genposition" : "genposition_paths", SLOTN, o, R.r[am][p][u], R.sc[am][p][u],
+              [&](int i) { return ms::line_writes(SLOTQ[i], outmask, true, ecaps, am) && !(s12silent && i == 3); }, rn, true);
+        if (ctx.want_sample()) ctx.sample(key + " -> " + outs(o));
+      }
     }
   }
   // ---------------------------------------------------------------- references are themselves consistent
@@ -530,7 +561,7 @@ template <class S> static void run_solver(Ctx& ctx, bool T) {
         { double dl = a1.v[1] - q.lon1, arc = am ? ARCS[p] : R.r[0][p][0].ret;
           double sa = std::sin(q.azi1 * Math::degree());
           bool meridional = std::fabs(sa) < 1e-6 || std::fabs(q.lat1) == 90;
-          if (!meridional && arc != 0 && !((dl > 0) == ((sa > 0) == (arc > 0)))) ctx.fail(key + " unroll-sense", "unrolled lon2 - lon1 = " + fx(dl) + " has the wrong sense for azi1 = " + fmt(q.azi1) + ", a12 = " + fmt(arc), FF("unroll-sense"));
+          if (!meridional && std::fabs(arc) > 1e-12 && !((dl > 0) == ((sa > 0) == (arc > 0)))) ctx.fail(key + " unroll-sense", "unrolled lon2 - lon1 = " + fx(dl) + " has the wrong sense for azi1 = " + fmt(q.azi1) + ", a12 = " + fmt(arc), FF("unroll-sense"));
           double slack = 180 + 2 * std::fabs(q.f) * std::fabs(arc) + 1;
           if (!(std::fabs(std::fabs(dl) - std::fabs(arc)) <= slack)) ctx.fail(key + " unroll-turns", "unrolled lon2 - lon1 = " + fx(dl) + " is inconsistent with an arc of " + fmt(arc) + " deg", FF("unroll-turns")); }
       }
@@ -544,9 +575,13 @@ template <class S> static void run_solver(Ctx& ctx, bool T) {
       // absolute-accuracy claim: the documented accuracy (10 um for |f| <= 0.05, ...) is no yardstick for it.  Calibrated:
       // worst observed on the unchanged tree 3.1 nm (a = WGS84 a), frozen at 16 nm per half turn, never looser than 2 x documented.
       double tol = std::fmin(2 * docm, 16e-9 * q.a / WA) * std::fmax(1.0, std::fabs(ARCS[p]) / 180);
-      ctx.worst("arc_vs_distance.position_over_tol", dpos / tol, key); ctx.worst("arc_vs_distance.azimuth_over_tol", dazi / tol, key);
+      ctx.worst("arc_vs_distance.position_over_tol", dpos / tol, key);
       if (!(dpos <= tol)) ctx.fail(key + " arc-dist", "Position(s12 of ArcPosition(a12)) is " + fmt(dpos) + " m from ArcPosition(a12) (tolerance " + fmt(tol) + ")", FF("arc-vs-distance"));
-      if (!(dazi <= tol)) ctx.fail(key + " arc-dist-azi", "azi2 differs by " + fmt(dazi) + " m-equivalent between arc- and distance-specified position", FF("arc-vs-distance"));
+      // at a pole the azimuth (and with it the area, by a lune) depends on the side from which the pole is reached: not compared
+      const bool atpole = std::fabs(A.v[0]) > 90 - 1e-6 || (std::fabs(q.lat1) == 90 && std::fabs(ARCS[p]) < 1e-6);
+      if (atpole) { ctx.count("arc_vs_distance.end_point_at_pole_azimuth_area_not_compared"); ctx.list("skipped", "arc- vs distance-specified position ending at a pole: azi2 and S12 depend on the side of approach -- only the position, a12, m12, M12, M21 compared"); }
+      if (!atpole) ctx.worst("arc_vs_distance.azimuth_over_tol", dazi / tol, key);
+      if (!atpole && !(dazi <= tol)) ctx.fail(key + " arc-dist-azi", "azi2 differs by " + fmt(dazi) + " m-equivalent between arc- and distance-specified position", FF("arc-vs-distance"));
       if (!mc::same_bits(D.v[3], R.s[p])) ctx.fail(key + " s12-echo", "distance-specified position returns s12 " + fx(D.v[3]) + " != given " + fx(R.s[p]), FF("s12-echo"));
       if (!mc::same_bits(A.ret, ARCS[p])) ctx.fail(key + " a12-echo", "arc-specified position returns a12 " + fx(A.ret) + " != given " + fx(ARCS[p]), FF("a12-echo"));
       double da = std::fabs(D.ret - ARCS[p]) * Math::degree() * big;
@@ -557,8 +592,8 @@ template <class S> static void run_solver(Ctx& ctx, bool T) {
       ctx.worst("arc_vs_distance.m12_M12_M21_over_tol", dm / tol, key);
       if (!(dm <= tol)) ctx.fail(key + " arc-dist-m12", "m12/M12/M21 differ by " + fmt(dm) + " m-equivalent between arc- and distance-specified position", FF("arc-vs-distance"));
       double dS = std::fabs(A.v[7] - D.v[7]) / big;
-      ctx.worst("arc_vs_distance.S12_over_tol", dS / tol, key);
-      if (!(dS <= tol)) ctx.fail(key + " arc-dist-S12", "S12 differs by " + fmt(dS * big) + " m^2 between arc- and distance-specified position", FF("arc-vs-distance"));
+      if (!atpole) ctx.worst("arc_vs_distance.S12_over_tol", dS / tol, key);
+      if (!atpole && !(dS <= tol)) ctx.fail(key + " arc-dist-S12", "S12 differs by " + fmt(dS * big) + " m^2 between arc- and distance-specified position", FF("arc-vs-distance"));
     }
   }
   // ---------------------------------------------------------------- GenDirect: masks x arcmode x positions;  Position(s) == Direct(start, s)
@@ -617,6 +652,16 @@ static const Course COURSES[] = {
   {"east-west-across-antimeridian", -20, 170, 90, 4e6, -20, -160, true},
   {"negative-distance", 10, 10, -135, -2e6, -35, 10, false},
   {"winding-near-pole", 89, 0, 89.9, 2e6, 89.5, -120, false},
+  {"equatorial-east", 0, 0, 90, 1e7, 0, 100, false},
+  {"meridional-north", -10, 25, 0, 5e6, 70, 25, false},
+  {"meridional-south-across-equator", 20, -100, 180, 6e6, -40, -100, false},
+  {"start-next-to-pole", 89.9999, 10, 135, 1e6, 0, -170, false},
+  {"lon1-outside-range", 5, -190, 80, 2e6, 30, 200, false},
+  {"zero-distance", -33, 150, 47, 0, -33, 150, false},
+  {"to-the-pole-inverse", 45, 0, 30, 1e3, 90, 60, false},
+  {"west-multi-circuit", 60, 0, 270, 3e7, 60.000001, -1e-6, false},
+  {"opposite-meridians", 30, 0, -86, 1.2e7, 40, 180, false},
+  {"tiny", 10, 10, 33, 1e-3, 10 + 1e-9, 10 + 1e-9, false},
 };
 static const int NCOURSE = sizeof(COURSES) / sizeof(COURSES[0]);
 static unsigned rmask(unsigned sel) {
@@ -630,8 +675,8 @@ static std::string rmaskname(unsigned sel) {
 }
 static void run_rhumb(Ctx& ctx, bool T) {
   struct RE { double a, f; bool exact, quick; };
-  const RE res[] = {{WA, WF, false, true}, {WA, WF, true, true}, {WA, 0.1, true, false}, {WA, -1 / 150.0, false, false}};
-  ctx.bound("rhumb", "all 2^6 subsets of Rhumb::mask {LATITUDE,LONGITUDE,AZIMUTH,DISTANCE,AREA,LONG_UNROLL} for GenDirect, RhumbLine::GenPosition and GenInverse; all overloads");
+  const RE res[] = {{WA, WF, false, true}, {WA, WF, true, true}, {WA, 0.1, true, false}, {WA, -1 / 150.0, false, false}, {WA, -0.1, true, false}, {WA, 0.01, false, false}, {WA, 0, true, false}, {1, 1 / 150.0, false, false}};
+  ctx.bound("rhumb", "all 2^6 subsets of Rhumb::mask {LATITUDE,LONGITUDE,AZIMUTH,DISTANCE,AREA,LONG_UNROLL} for GenDirect, RhumbLine::GenPosition and GenInverse; all overloads; " + std::string(T ? "8 ellipsoid/mode combinations x 15 courses" : "WGS84 series and exact x 3 courses"));
   ctx.sub("rhumb");
   for (const RE& re : res) for (int ci = 0; ci < NCOURSE; ++ci) {
     const Course& c = COURSES[ci];
@@ -692,7 +737,8 @@ int main(int argc, char** argv) {
   ctx.bound("outmask", "all 2^8 subsets of {LATITUDE,LONGITUDE,AZIMUTH,DISTANCE,REDUCEDLENGTH,GEODESICSCALE,AREA,LONG_UNROLL}");
   ctx.bound("caps", "all 2^8 subsets of {LATITUDE,LONGITUDE,AZIMUTH,DISTANCE,DISTANCE_IN,REDUCEDLENGTH,GEODESICSCALE,AREA}");
   ctx.bound("geodesics", T ? "14 (f=1/25, f=-1/50, generic, meridional, equatorial, nearly equatorial, both pole starts, southward, prolate x2, f=0.1, sphere, a=1)" : "5 (WGS84 generic, WGS84 meridional, f=0.1 generic, f=1/25 oblique, prolate east-going across the antimeridian)");
-  ctx.bound("positions", T ? "arc lengths 35, -50, 200, 725.5 deg and the corresponding distances" : "arc lengths 35, -50 deg and the corresponding distances");
+  ctx.bound("positions", T ? "arc lengths 35, -50, 200, 725.5, -190, 90, 180, -1000.25, 1e-9, 0 deg and the corresponding distances (lines from DirectLine/ArcDirectLine/GenDirectLine/InverseLine: the first 4)" : "arc lengths 35, -50 deg and the corresponding distances");
+  ctx.bound("line-constructor-paths", T ? "Line, DirectLine, ArcDirectLine, GenDirectLine(false), GenDirectLine(true), InverseLine -- each x all 2^8 capability sets x all 2^8 masks x arcmode x positions" : "Line (the other paths: point-3 subchecks only)");
   check_enums(ctx);
   run_solver<SeriesT>(ctx, T);
   run_solver<ExactT>(ctx, T);
